@@ -25,6 +25,9 @@ let () =
   register "mix" (function [p; g; h; s; ss; out] ->
       (res_tok (fun l -> "ret:" ^ tok_cards l) (vmix (z_of_hex p) (z_of_hex g) (z_of_hex h) (cards_of_tok s) (pairs_of_tok ss)), out)
     | _ -> failwith "arity");
+  register "mixinto" (function [p; g; h; old; s; ss; out] ->
+      (res_tok (fun l -> "ret:" ^ tok_cards l) (vmix_into (z_of_hex p) (z_of_hex g) (z_of_hex h) (cards_of_tok old) (cards_of_tok s) (pairs_of_tok ss)), out)
+    | _ -> failwith "arity");
   register "glue" (function [q; sigma; pi; out] ->
       (res_tok (fun l -> "ret:" ^ tok_pairs l) (vglue (z_of_hex q) (pairs_of_tok sigma) (pairs_of_tok pi)), out)
     | _ -> failwith "arity");
